@@ -121,12 +121,38 @@ def grd8(P, R, L):
     ok = bool(pol)
     det = []
     for c in pol:
-        for t in result_tests(b, c.dest["l"]):
+        tests = result_tests(b, c.dest["l"])
+        for t in tests:
             for e in t.err:
                 vals = return_value_consts(b, e)
                 if vals != {"1"}:
                     ok = False
                     det.append("policy error edge may return %s" % sorted(vals))
+        if not tests:
+            # the Result is consumed by an adapter: only `unwrap_or(true)` / `unwrap_or_else(|_| true)` fail open
+            handled = False
+            for u in b.calls():
+                if b.is_cleanup(u.bb) or not u.args or not any(o.kind == "call" and o.site is not None and o.site.bb == c.bb for o in origins(b, u.args[0])):
+                    continue
+                nm = u.name or ""
+                if nm.endswith("Result::unwrap_or") and len(u.args) > 1 and u.args[1]["k"] == "const" and u.args[1].get("val") == "1":
+                    handled = True
+                elif nm.endswith("Result::unwrap_or_else") and len(u.args) > 1:
+                    for cp in b.closure_of_operand(u.args[1]):
+                        cb = P.bodies.get(cp)
+                        if cb is not None:
+                            R.analysed(cb)
+                            rets = {st["rv"]["ops"][0].get("val") if (st["rv"]["k"] == "use" and st["rv"]["ops"][0]["k"] == "const") else "?"
+                                    for bb_ in range(cb.n) if not cb.is_cleanup(bb_) for st in cb.blocks[bb_]["stmts"]
+                                    if st["k"] == "assign" and st["pl"]["l"] == 0 and not st["pl"]["p"]}
+                            handled = rets == {"1"}
+                            if not handled:
+                                det.append("the fallback closure of unwrap_or_else returns %s" % sorted(rets))
+                elif "unwrap_or_default" in nm or nm.endswith("Result::ok") or nm.endswith("Result::is_ok"):
+                    det.append("policy error is turned into `false` by %s" % nm.rsplit("::", 1)[1])
+            if not handled:
+                ok = False
+                det.append("the policy's Result is neither tested nor given a `true` fallback")
     R.check("GRD-8", KMM + "|policy-error-fails-open", ok, K.where(b), "an error from the filter policy makes key_may_match return true", "; ".join(det))
     ln = lambda os_: any(o.kind == "call" and (o.name or "").endswith("::len") for o in os_)
     oor = []
@@ -162,6 +188,18 @@ def grd8(P, R, L):
     ok = div is not None and exp is not None and ((div[0] == "Div" and div[1] == (1 << exp)) or (div[0] == "Shr" and div[1] == exp))
     R.check("GRD-8", "filter-range-constant-agreement", ok, K.where(nb),
             "the builder assigns blocks to filters by offset / 2^k and stores the same k in the block", "builder uses %s, stored exponent %s" % (div, exp))
+    # the block offset is never narrowed on its way to the filter index (files may exceed 4 GiB: max_file_size is a u64)
+    narrow = []
+    for fnb in (b, nb):
+        for bb in range(fnb.n):
+            if fnb.is_cleanup(bb):
+                continue
+            for st in fnb.blocks[bb]["stmts"]:
+                if st["k"] == "assign" and st["rv"]["k"] == "cast" and st["rv"].get("ck") == "IntToInt" and st["rv"].get("ty") in ("u32", "u16", "u8", "i32", "i16", "i8"):
+                    if any(o.kind == "param" and not o.path and fnb.local_name(o.name) and "offset" in fnb.local_name(o.name) for o in origins(fnb, st["rv"]["ops"][0])):
+                        narrow.append("%s line %s: offset cast to %s" % (fnb.path.rsplit("::", 1)[1], st.get("line"), st["rv"]["ty"]))
+    R.check("GRD-8", "filter-index|offset-not-narrowed", not narrow, K.where(b),
+            "the data block's file offset reaches the filter-index computation at full width on the writer and the reader side", "; ".join(narrow))
     # reader uses the stored exponent
     shl = any(st["k"] == "assign" and st["rv"]["k"] == "binop" and st["rv"]["op"] in ("Shl", "Shr") for bb in b.blocks for st in bb["stmts"])
     uses = bool(K.field_reads(b, "encoded_range_size_exponent"))
@@ -298,6 +336,17 @@ def agr1(P, R, L):
     R.check("AGR-1", BLOOM_MATCH + "|probe-count-from-the-filter", from_filter, K.where(r),
             "the number of probes is the one stored in the filter's first byte (a filter written under a different bits_per_key is still read correctly)",
             "loop bounds: %s" % [[(o.kind, o.name, o.path) for o in os_] for os_ in rng])
+    # the reader refuses only filters that are too short to carry a header: any other Err would have to fail open upstream
+    errs = [bb for bb in range(r.n) if not r.is_cleanup(bb) for st in r.blocks[bb]["stmts"]
+            if st["k"] == "assign" and st["pl"]["l"] == 0 and st["rv"]["k"] == "aggregate" and st["rv"].get("variant") == "Err"]
+    short = []
+    for c in comparisons(r):
+        ln_ = lambda os_: any(o.kind == "call" and (o.name or "").endswith("::len") for o in os_)
+        cst = lambda os_: any(o.kind == "const" for o in os_)
+        short += c.edges_where("lt", ln_, cst)
+    R.check("AGR-1", BLOOM_MATCH + "|errors-only-for-truncated-filters", all(short and r.must_pass(bb, through_edges=short) for bb in errs), K.where(r),
+            "key_may_match returns Err only for a filter shorter than its header (a probe-count mismatch is not an error: the stored count is used)",
+            "Err returns %d, too-short edges %d" % (len(errs), len(short)))
     # writer: stores its own probe count as the first byte
     stored = False
     for bb in range(w.n):
